@@ -133,7 +133,7 @@ def run(ctx):
     out3 = os.path.join(ctx.work, "sid_fresh.ndjson")
     r3 = ctx.gotest("peer", H_PEER, "^(TestZZVStreamIdConnReplay|TestZZVStreamIdFresh)$", race=True, timeout=1500,
                     env={"ZZV_IN": inp, "ZZV_OUT": out3, "ZZV_FRESH": 3000 if q else 40000, "ZZV_G": 6 if q else 8,
-                         "ZZV_REAL_EVERY": 60 if q else 100})
+                         "ZZV_REAL_EVERY": 20 if q else 40})
     sums = {x.get("test"): x for x in r3.of("summary")}
     s3, s4 = sums.get("connreplay"), sums.get("fresh")
     if not s3 or not s4:
